@@ -140,14 +140,10 @@ def w4(rec, s):
             s.G = (s.Gx, s.Gy)
             ctx = mon.Ctx(p, A, B, n, g)
             mon.set_ctx(ctx)
-            # did the substitution take effect?  2G and N*G through the public functions vs the model
-            orig_mul = getattr(s.multiply, "__pv_original__", s.multiply)
-            try:
-                eff = MS_pt(orig_mul(s.G, 2), p) == ctx.E.mul(g, 2) and tuple(orig_mul(s.G, n)) == (0, 0) and MS_pt(orig_mul(s.G, n + 1), p) == g
-            except Exception:
-                eff = False
-            if not eff:
+            if not mon.substitution_effective(s, ctx):
                 rec.unavailable.append("W4: rebinding secp256k1 module constants had no effect for curve p=%d A=%d B=%d" % (p, A, B))
+                for c_ in ("W4:pairs", "W4:scalars", "W4:A!=0"):
+                    rec.waive(c_, "the module does not follow its constants when they are rebound (tables derived at import?)")
                 continue
             n_curves += 1
             lib_pts = [(0, 0) if q is None else (q[0][0], q[1][0]) for q in pts]
